@@ -33,6 +33,9 @@ def obligations(tier):
             "ceos_alos2.array:Array.__getitem__"], bounds="forall 12<=H<L, pixels>=1; n in 0..3, rpc in 1..3; every other field of the header section blank or arbitrary",
            harness="harness/h_image.py", func="open_ok", params={"ns": [0, 1, 2, 3], "rpcs": [1, 2, 3], "type_code": "IU2", "imgname": "IMG-HH-ALOS2290760600-191011-WBDR1.5GUD"},
            timeout=to),
+        Ob("C12.hdr", "X", "header-derived attributes of the image group are plain values present only when their field is filled: a blank field never surfaces as None "
+           "(or any other placeholder object)", ["ceos_alos2.sar_image.metadata:transform_metadata", "ceos_alos2.sar_image.metadata:extract_attrs"],
+           bounds="forall field values >= -1 (-1 = blank), interleaving blank or not, both type codes", harness="harness/h_adapters.py", func="header_flow_ok", timeout=to),
         Ob("C12.adapter", "X", "what a load returns is exactly what the backend array returned for the key xarray's adapter produced (no re-wrapping that could change rank, "
            "shape or dtype): advertised shape = loaded shape for every selection the adapter can produce",
            ["ceos_alos2.xarray:LazilyIndexedWrapper.__getitem__", "ceos_alos2.xarray:LazilyIndexedWrapper._raw_indexing_method"],
